@@ -26,7 +26,7 @@ def first_index(s):
     return int(m.group(1)) if m else None
 
 def standard(ctx, props, harness=None, obl=None, cases=None, trusted=(), assumptions=(), unproved=None,
-             pkg="cmd/keymasterd", race=False, checker=None, timeout=1500, env=None, extra_gen=()):
+             pkg="cmd/keymasterd", race=False, checker=None, timeout=1500, env=None, extra_gen=(), extra_overlay=None):
     """props: list of (module, [theorems]); harness: (test name, [files]); obl: (file, [names]);
        cases: (file, [(definition name, label)], idx file or None)"""
     for mod, thms in props:
@@ -36,7 +36,7 @@ def standard(ctx, props, harness=None, obl=None, cases=None, trusted=(), assumpt
     if harness:
         test, files = harness
         files = list(files) + [os.path.join(ctx.work, "gen", "mux_gen.go")] if pkg == "cmd/keymasterd" else list(files)
-        ok, result, log = ctx.go_harness(pkg, test, files, race=race, timeout=timeout, env=env)
+        ok, result, log = ctx.go_harness(pkg, test, files, race=race, timeout=timeout, env=env, extra_overlay=extra_overlay)
     gen_ok = compile_gen(ctx, ("Routes.v", "Tables.v", "Consts.v") + tuple(extra_gen))
     if obl and gen_ok:
         ctx.gen_obligations(obl[0], obl[1])
